@@ -376,7 +376,7 @@ fn part1(ctx: &std::sync::Arc<Ctx>) {
         let (a, b) = (sp.clone(), sp.clone());
         ctx.run_enum("tree-exhaustive-m6-triples-reduced", n, true, move |i| check_tree_case(&a.case(i), false), move |i| format!("{:?}", b.case(i)));
     }
-    ctx.run_prop("tree-random-sequences", arb_tree_case, tier.pick(1_000_000, 100_000_000), |c| check_tree_case(c, true));
+    ctx.run_prop("tree-random-sequences", arb_tree_case, tier.pick(4_000_000, 100_000_000), |c| check_tree_case(c, true));
     ctx.require_label_fraction("tree-random-sequences", "scanned-sticky", 0.05);
     ctx.require_label_fraction("tree-random-sequences", "force-overrode-scanned", 0.05);
     ctx.require_label_fraction("tree-random-sequences", "gap-became-historic", 0.05);
@@ -1169,7 +1169,7 @@ fn part23(ctx: &std::sync::Arc<Ctx>) {
     ctx.run_prop_with(
         "wallet-histories",
         move || wallet::arb_history(max_rounds, 6),
-        tier.pick(320, 12_000),
+        tier.pick(1_500, 12_000),
         64,
         move |h| wallet::check_history(h, max_height),
     );
